@@ -18,9 +18,8 @@ HARNESSES = [
     dict(name="sq", pkg="./pkg/opdb/sqlite/", test="TestVerifC12SQ", timeout=600,
          files=[("pkg/opdb/sqlite/zz_verif_c12_sq_test.go", _F + "c12_sqlite_test.go")]),
 ]
-# repaired = /repo HEAD for every fixed finding (a regression to an old defect is a VIOLATION); d_ckrace = the one
-# open finding (concurrent IPoE checkpoints of one session issued out of marshalling order), only for `race` cases
-VARIANTS = ["repaired", "d_ckrace"]
+# repaired = /repo HEAD; no C12 finding is open, so a regression to any old defect is a VIOLATION
+VARIANTS = ["repaired"]
 MODEL_NEEDS_IMPL = True
 RULE = ("one case = one whole history over <=6 sessions on a fresh component with a scheduler-controlled opdb fake: "
         "new (bring-up with allocator answers; pool/static/no address per family, bound/released-v4/approved/created flags "
@@ -381,6 +380,9 @@ def classify(case, impl, model):
     v = _monitor(case, impl)
     if v:
         return "P", v
+    if "start=early" in impl or "start=nopkt" in impl:
+        return "P", ("the component served (subscription / Ready / packet hand-off) before its restore had finished, or never "
+                     "took the waiting packet: %s" % re.findall(r"start=\w+", impl))
     si, sm = _segs(impl), _segs(model)
     ops = case.split()[4:] + ["final"]
     for k, (x, y) in enumerate(zip(si, sm)):
@@ -402,9 +404,7 @@ def classify(case, impl, model):
 
 
 def signature(case, impl, models):
-    if case.startswith("race ") and impl == models.get("d_ckrace") == "stale=yes":
-        return "concurrent-checkpoint-reorder/ipoe"
-    return None
+    return None          # no open finding
 
 
 def nontrivial(case, impl):
